@@ -704,7 +704,7 @@ def gen_actions(rng, world, dims, where):
         acts.append({"a": rng.choice(["set", "set", "set", "del"]),
                      "name": rng.choice(ATTR_NAMES)})
     if dims["cleanups"] and rng.random() < 0.35 and where != "after_all":
-        kind = rng.choice(["plain", "args", "layer", "fixture", "fixture_plain"])
+        kind = rng.choice(["plain", "args", "layer", "fixture", "fixture_plain", "fixture_nested"])
         act = {"a": "cleanup", "kind": kind}
         if kind == "layer":
             act["layer"] = rng.choice(["testrun", "feature", "rule", "scenario"])
@@ -749,6 +749,8 @@ def gen_script(rng, world, dims):
             ent["out"] = {"kind": rng.choice(["exc", "assert"]),
                           "cls": rng.choice(EXC_CLASSES),
                           "msg": gen_message(rng, dims["hostile"])}
+        if dims.get("log_level_changes") and name in ("before_feature", "before_rule") and rng.random() < 0.3:
+            ent["acts"].append({"a": "root_level", "level": rng.choice([10, 30, 40, 50])})
         if dims["hook_skips"] and name in ("before_feature", "before_rule", "before_scenario") \
                 and rng.random() < 0.25:
             ent["acts"].append({"a": "skip_element", "how": rng.choice(["skip", "mark_skipped"]),
@@ -761,6 +763,8 @@ def gen_script(rng, world, dims):
             ent = {"acts": gen_actions(rng, world, dims, name), "out": {"kind": "ok"}}
             if rng.random() < dims["p_hook_fail"] * 0.5:
                 ent["out"] = {"kind": "exc", "cls": "Exception", "msg": "all-hook"}
+            if dims.get("log_level_changes") and name == "before_all" and rng.random() < 0.5:
+                ent["acts"].append({"a": "root_level", "level": rng.choice([10, 30, 40, 50])})
             if ent["acts"] or ent["out"]["kind"] != "ok":
                 script["hook|%s|||0" % name] = ent
 
@@ -892,6 +896,7 @@ def gen_config(rng, world, dims):
             cfg["listfile"] = {"path": rng.choice(["sel.txt", "features/sel.txt"]),
                                "comments": rng.random() < 0.5}
     cfg["paths"] = paths
+    cfg["pre_handler"] = bool(dims.get("pre_handler"))
     world["cfg"] = cfg
     world["stale_rerun"] = dims["rerun"] and rng.random() < 0.4
 
